@@ -68,7 +68,7 @@ def run(ctx):
             ctx.violation('exception handling of pipeline() violates C29 outside the known domains: %s -> %s' % (line[:200], o[:400]),
                           {'case': line, 'output': o, 'cmd': 'echo "<case>" | build/harness/h_pipeline-*'})
         elif v == 1:
-            ctx.broken.append('correspondence L(C29): real trace differs from the model on ' + line[:200] + ' -> ' + o[:200])
+            ctx.broken.append('correspondence L(C29): real trace differs from the model on ' + line + ' -> ' + o[:300])
     ctx.cov['verdict_histogram'] = {'agree': hist.get(0, 0), 'differ_property_holds': hist.get(1, 0), 'fails_outside_known_domains': hist.get(2, 0),
                                     'leak_known_domain': hist.get(4, 0)}
     ctx.cov['witness_verdicts'] = dict(zip(['leak', 'former_hang', 'former_escape'], verdicts[:len(wk)]))
